@@ -452,6 +452,16 @@ def run_session(rundir: str, spec: dict) -> dict:
             w.insert_attestation(BlobAttestation(det_bytes("blob:" + name, size)),
                                  hashlib.sha1(name.encode()).digest(), BlobKey(det_bytes("key:" + name, 96)),  # noqa: S324
                                  ID_FORMAT)
+        elif kind == "blob2":
+            # ("blob2", name, size): the same insert through a SECOND connection of this process to the wallet file (two
+            # pseudonyms of one CommunicationManager share their working directory)
+            _, name, size = op
+            if "wallet2" not in net:
+                net["wallet2"] = AttestationsDB(dbdir, "attestations")
+                log.ev(e="O", db="wallet")
+            net["wallet2"].insert_attestation(BlobAttestation(det_bytes("blob:" + name, size)),
+                                              hashlib.sha1(name.encode()).digest(),  # noqa: S324
+                                              BlobKey(det_bytes("key:" + name, 96)), ID_FORMAT)
         elif kind == "complete":
             # ("complete", name, size, "ok"|"raises"): the wallet row is written by the real
             # AttestationCommunity.on_attestation_complete (what the last chunk of an attestation triggers), with an
